@@ -217,5 +217,6 @@ class repeated_node_with_interleaving_comments_property(
         repeated = self._inner_field.__get__(instance)
         properties.replace_node(repeated, value.repeated)
         self._inner_field.__set__(instance, value.repeated)
-        instance.__dict__[self._attr] = value
+        # The given wrapper may be a plain RepeatedNodeWrapper (e.g. a deep copy): rebuild ours around the new list.
+        instance.__dict__.pop(self._attr, None)
         properties.invalidate_cached_views(instance)
